@@ -33,9 +33,11 @@ import (
 // magg
 
 type maggSearch struct {
-	NQ  int    `json:"nq"`
-	Agg string `json:"agg"` // sum | max | mean
-	Q   int    `json:"q"`
+	NQ   int    `json:"nq"`
+	Agg  string `json:"agg"` // sum | max | mean
+	Q    int    `json:"q"`
+	Filt int    `json:"filt,omitempty"` // 0 unrestricted | 1 a subset of the instance's ids | 2 ids the instance does not hold (matches nothing)
+	Miss bool   `json:"miss,omitempty"` // text / hybrid: a query no document matches
 }
 
 type maggCase struct {
@@ -62,6 +64,9 @@ func genMagg(r *core.Rand, tier string) *maggCase {
 	// same kind is the thing to provoke), sometimes mixes them
 	focus := maggAggs[r.Intn(3)]
 	mixed := r.Chance(0.3)
+	// id restrictions (WithDocumentIDs, hybrid: metadata pre-filter): every goroutine its own, incl.
+	// restrictions and queries that match nothing
+	filtered := r.Chance(0.5)
 	c.Searches = make([][]maggSearch, g)
 	for gi := range c.Searches {
 		for i := r.Range(1, 3); i > 0; i-- {
@@ -73,7 +78,12 @@ func genMagg(r *core.Rand, tier string) *maggCase {
 			if r.Chance(0.1) {
 				nq = 1
 			}
-			c.Searches[gi] = append(c.Searches[gi], maggSearch{NQ: nq, Agg: agg, Q: r.Intn(1000)})
+			ms := maggSearch{NQ: nq, Agg: agg, Q: r.Intn(1000)}
+			if filtered {
+				ms.Filt = 1 + r.Pick(4, 1)
+				ms.Miss = r.Chance(0.3)
+			}
+			c.Searches[gi] = append(c.Searches[gi], ms)
 		}
 	}
 	return c
@@ -82,7 +92,7 @@ func genMagg(r *core.Rand, tier string) *maggCase {
 var maggTexts = []string{"common", "w1", "w2 w3", "w0 common", "w4", "w1 w2", "common w3"}
 
 // maggInstance answers a search canonically: sorted "id:scorebits" list.
-type maggInstance func(s maggSearch, g int) (string, error)
+type maggInstance func(s maggSearch, g int) (hits string, filt string, err error)
 
 func canonHits(ids []uint32, bits []uint64, wide bool) string {
 	if len(ids) == 0 {
@@ -108,8 +118,33 @@ func maggQueries(s maggSearch, g int) [][]float32 {
 	return qs
 }
 
+// maggFilter: the id restriction of a search on an instance holding base+1 … base+n
+func maggFilter(s maggSearch, base uint32, n int) []uint32 {
+	var ids []uint32
+	switch s.Filt {
+	case 1:
+		for j := 1; j <= n; j++ {
+			if (j*7+s.Q)%3 == 0 {
+				ids = append(ids, base+uint32(j))
+			}
+		}
+		if len(ids) == 0 {
+			ids = []uint32{base + 1}
+		}
+	case 2:
+		ids = []uint32{base + 90001, base + 90002 + uint32(s.Q%5)}
+	}
+	return ids
+}
+
 func newMaggInstance(kind string, base uint32, n int) (maggInstance, error) {
 	agg := func(a string) comet.ScoreAggregationKind { return comet.ScoreAggregationKind(a) }
+	filtS := func(ids []uint32, on bool) string {
+		if !on {
+			return "all"
+		}
+		return idsCSV(ids)
+	}
 	vec := func(idx comet.VectorIndex, nprobe int) (maggInstance, error) {
 		for j := 1; j <= n; j++ {
 			id := base + uint32(j)
@@ -117,18 +152,23 @@ func newMaggInstance(kind string, base uint32, n int) (maggInstance, error) {
 				return nil, err
 			}
 		}
-		return func(s maggSearch, g int) (string, error) {
-			res, err := idx.NewSearch().WithK(bigK).WithNProbes(nprobe).WithEfSearch(4096).
-				WithScoreAggregation(agg(s.Agg)).WithQuery(maggQueries(s, g)...).Execute()
+		return func(s maggSearch, g int) (string, string, error) {
+			vs := idx.NewSearch().WithK(bigK).WithNProbes(nprobe).WithEfSearch(4096).
+				WithScoreAggregation(agg(s.Agg)).WithQuery(maggQueries(s, g)...)
+			f := maggFilter(s, base, n)
+			if s.Filt != 0 {
+				vs = vs.WithDocumentIDs(f...)
+			}
+			res, err := vs.Execute()
 			if err != nil {
-				return "", err
+				return "", "", err
 			}
 			ids := make([]uint32, len(res))
 			bits := make([]uint64, len(res))
 			for i, h := range res {
 				ids[i], bits[i] = h.GetId(), uint64(math.Float32bits(h.GetScore()))
 			}
-			return canonHits(ids, bits, false), nil
+			return canonHits(ids, bits, false), filtS(f, s.Filt != 0), nil
 		}, nil
 	}
 	l2 := comet.DistanceKind("l2")
@@ -180,21 +220,29 @@ func newMaggInstance(kind string, base uint32, n int) (maggInstance, error) {
 				return nil, err
 			}
 		}
-		return func(s maggSearch, g int) (string, error) {
+		return func(s maggSearch, g int) (string, string, error) {
 			qs := make([]string, s.NQ)
 			for i := range qs {
 				qs[i] = maggTexts[(s.Q+g+i*3)%len(maggTexts)]
+				if s.Miss {
+					qs[i] = fmt.Sprintf("zzz%d", i) // no document has this term
+				}
 			}
-			res, err := idx.NewSearch().WithK(bigK).WithScoreAggregation(agg(s.Agg)).WithQuery(qs...).Execute()
+			ts := idx.NewSearch().WithK(bigK).WithScoreAggregation(agg(s.Agg)).WithQuery(qs...)
+			f := maggFilter(s, base, n)
+			if s.Filt != 0 {
+				ts = ts.WithDocumentIDs(f...)
+			}
+			res, err := ts.Execute()
 			if err != nil {
-				return "", err
+				return "", "", err
 			}
 			ids := make([]uint32, len(res))
 			bits := make([]uint64, len(res))
 			for i, h := range res {
 				ids[i], bits[i] = h.GetId(), uint64(math.Float32bits(h.GetScore()))
 			}
-			return canonHits(ids, bits, false), nil
+			return canonHits(ids, bits, false), filtS(f, s.Filt != 0), nil
 		}, nil
 	case "hybrid":
 		v, err := comet.NewFlatIndex(4, l2)
@@ -208,25 +256,47 @@ func newMaggInstance(kind string, base uint32, n int) (maggInstance, error) {
 				return nil, err
 			}
 		}
-		return func(s maggSearch, g int) (string, error) {
+		return func(s maggSearch, g int) (string, string, error) {
 			qs := make([]string, s.NQ)
 			for i := range qs {
 				qs[i] = maggTexts[(s.Q+g+i*3)%len(maggTexts)]
+				if s.Miss {
+					qs[i] = fmt.Sprintf("zzz%d", i)
+				}
 			}
-			h := idx.NewSearch().WithK(bigK).WithScoreAggregation(agg(s.Agg)).WithVector(concQuery(g, s.Q))
-			if s.Q%3 != 0 {
+			h := idx.NewSearch().WithK(bigK).WithScoreAggregation(agg(s.Agg))
+			// restriction = metadata pre-filter: the documents of one category (or of none)
+			var f []uint32
+			switch s.Filt {
+			case 1:
+				cat := s.Q % 3
+				h = h.WithMetadata(comet.Eq("cat", fmt.Sprintf("c%d", cat)))
+				for j := 1; j <= n; j++ {
+					if (base+uint32(j))%3 == uint32(cat) {
+						f = append(f, base+uint32(j))
+					}
+				}
+			case 2:
+				h = h.WithMetadata(comet.Eq("cat", "nothing-has-this"))
+			}
+			switch {
+			case s.Miss: // text only, matching nothing (inside the filtered set)
 				h = h.WithText(qs...)
+			case s.Q%3 != 0:
+				h = h.WithVector(concQuery(g, s.Q)).WithText(qs...)
+			default:
+				h = h.WithVector(concQuery(g, s.Q))
 			}
 			res, err := h.Execute()
 			if err != nil {
-				return "", err
+				return "", "", err
 			}
 			ids := make([]uint32, len(res))
 			bits := make([]uint64, len(res))
 			for i, r := range res {
 				ids[i], bits[i] = r.ID, math.Float64bits(r.Score)
 			}
-			return canonHits(ids, bits, true), nil
+			return canonHits(ids, bits, true), filtS(f, s.Filt != 0), nil
 		}, nil
 	}
 	return nil, fmt.Errorf("unknown kind %s", kind)
@@ -250,11 +320,11 @@ func execMagg(c *maggCase) []string {
 	// sequential answers, before any concurrency
 	for gi, ss := range c.Searches {
 		for i, s := range ss {
-			hits, err := inst[gi](s, gi)
+			hits, filt, err := inst[gi](s, gi)
 			if err != nil {
-				lines = append(lines, fmt.Sprintf("op seq %d %d %s %s %d => %s", gi, i, c.Kind, s.Agg, s.NQ, concErr(err)))
+				lines = append(lines, fmt.Sprintf("op seq %d %d %s %s %d all => %s", gi, i, c.Kind, s.Agg, s.NQ, concErr(err)))
 			} else {
-				lines = append(lines, fmt.Sprintf("op seq %d %d %s %s %d => ok %s", gi, i, c.Kind, s.Agg, s.NQ, hits))
+				lines = append(lines, fmt.Sprintf("op seq %d %d %s %s %d %s => ok %s", gi, i, c.Kind, s.Agg, s.NQ, filt, hits))
 			}
 		}
 	}
@@ -275,7 +345,7 @@ func execMagg(c *maggCase) []string {
 								line = "op panic " + core_trunc(strings.ReplaceAll(fmt.Sprint(r), "\n", " "), 200)
 							}
 						}()
-						hits, err := inst[gi](s, gi)
+						hits, _, err := inst[gi](s, gi)
 						if err != nil {
 							line = fmt.Sprintf("op par %d %d %d => %s", gi, i, rep, concErr(err))
 						} else {
@@ -310,7 +380,8 @@ type imageCase struct {
 	Pre     int         `json:"pre"`     // all-modality documents added before the race
 	Writers int         `json:"writers"` // goroutines calling WriteTo in a loop
 	Loops   int         `json:"loops"`
-	Progs   [][]imageOp `json:"progs"` // the Add / Remove goroutines
+	Progs   [][]imageOp `json:"progs"`         // the Add / Remove goroutines
+	Hot     []imageOp   `json:"hot,omitempty"` // contended ids: added before the race with a partial modality set
 }
 
 var imageMods = []string{"t", "m", "v", "vtm", "tm", "vt"}
@@ -345,6 +416,31 @@ func genImage(r *core.Rand, tier string) *imageCase {
 			}
 		}
 	}
+	// contended ids: each exists before the race with a PARTIAL modality set; during the race one
+	// goroutine re-adds it with all modalities while one or two others remove it (a Remove that
+	// looked the document up before the re-add and deletes after it must not act on stale
+	// knowledge); whatever the order, table and sub-indexes must agree afterwards
+	if g >= 3 && r.Chance(0.8) {
+		partial := []string{"v", "t", "m", "vt", "tm", "vm"}
+		ins := func(gi int, op imageOp) {
+			p := c.Progs[gi]
+			k := r.Intn(len(p) + 1)
+			p = append(p, imageOp{})
+			copy(p[k+1:], p[k:])
+			p[k] = op
+			c.Progs[gi] = p
+		}
+		for j := r.Range(8, 30); j > 0; j-- {
+			id := concIDBase + 200000 + uint32(j)
+			c.Hot = append(c.Hot, imageOp{Op: "add", ID: id, Mod: partial[r.Intn(len(partial))]})
+			perm := r.Perm(g)
+			ins(perm[0], imageOp{Op: "add", ID: id, Mod: "vtm"})
+			ins(perm[1], imageOp{Op: "remove", ID: id})
+			if r.Chance(0.5) {
+				ins(perm[2], imageOp{Op: "remove", ID: id})
+			}
+		}
+	}
 	return c
 }
 
@@ -355,7 +451,9 @@ func execImage(c *imageCase) []string {
 	if err != nil {
 		return append(lines, "op panic constructor: "+err.Error(), "end")
 	}
-	idx := comet.NewHybridSearchIndex(v, comet.NewBM25SearchIndex(), comet.NewRoaringMetadataIndex())
+	liveT := comet.NewBM25SearchIndex()
+	liveM := comet.NewRoaringMetadataIndex()
+	idx := comet.NewHybridSearchIndex(v, liveT, liveM)
 	var clk atomic.Int64
 	var mu sync.Mutex
 	logf := func(format string, a ...any) {
@@ -372,6 +470,45 @@ func execImage(c *imageCase) []string {
 			}
 		}()
 		return f()
+	}
+	// probe: what a hybrid index and its three sub-indexes say about every id
+	probe := func(g int, inv, resp int64, h2 comet.HybridSearchIndex, v2 *comet.FlatIndex, t2 *comet.BM25SearchIndex, m2 *comet.RoaringMetadataIndex) {
+		info, _ := comet.VerifCodecHybridDocInfo(h2)
+		is := make([]string, len(info))
+		for i, d := range info {
+			f := ""
+			if d.HasVector {
+				f += "v"
+			}
+			if d.HasText {
+				f += "t"
+			}
+			if d.HasMetadata {
+				f += "m"
+			}
+			if f == "" {
+				f = "0"
+			}
+			is[i] = fmt.Sprintf("%d:%s", d.ID, f)
+		}
+		infoS := "-"
+		if len(is) > 0 {
+			infoS = strings.Join(is, ",")
+		}
+		vids, _, vdel := v2.VerifFlatState()
+		vids = dedupIDs(minusIDs(vids, vdel))
+		ts := t2.VerifState()
+		var tids []uint32
+		for id := range ts.DocLengths {
+			tids = append(tids, id)
+		}
+		tids = minusIDs(tids, ts.Deleted)
+		ms, merr := m2.VerifState()
+		if merr != nil {
+			logf("op image %d %d %d => other:meta_state", g, inv, resp)
+			return
+		}
+		logf("op image %d %d %d => ok info=%s vec=%s txt=%s meta=%s", g, inv, resp, infoS, idsCSV(vids), idsCSV(tids), idsCSV(ms.AllDocs))
 	}
 	add := func(g int, id uint32, mod string) {
 		var vec []float32
@@ -392,6 +529,9 @@ func execImage(c *imageCase) []string {
 	}
 	for j := 1; j <= c.Pre; j++ {
 		add(0, concIDBase+uint32(j), "vtm")
+	}
+	for _, h := range c.Hot {
+		add(0, h.ID, h.Mod)
 	}
 	// one image: WriteTo into four buffers, reload into fresh templates, probe
 	image := func(g int) {
@@ -419,42 +559,7 @@ func execImage(c *imageCase) []string {
 			logf("op image %d %d %d => reload:%s", g, inv, resp, out)
 			return
 		}
-		info, _ := comet.VerifCodecHybridDocInfo(h2)
-		is := make([]string, len(info))
-		for i, d := range info {
-			f := ""
-			if d.HasVector {
-				f += "v"
-			}
-			if d.HasText {
-				f += "t"
-			}
-			if d.HasMetadata {
-				f += "m"
-			}
-			if f == "" {
-				f = "0"
-			}
-			is[i] = fmt.Sprintf("%d:%s", d.ID, f)
-		}
-		infoS := "-"
-		if len(is) > 0 {
-			infoS = strings.Join(is, ",")
-		}
-		vids, _, vdel := v2.VerifFlatState()
-		vids = minusIDs(vids, vdel)
-		ts := t2.VerifState()
-		var tids []uint32
-		for id := range ts.DocLengths {
-			tids = append(tids, id)
-		}
-		tids = minusIDs(tids, ts.Deleted)
-		ms, merr := m2.VerifState()
-		if merr != nil {
-			logf("op image %d %d %d => other:meta_state", g, inv, resp)
-			return
-		}
-		logf("op image %d %d %d => ok info=%s vec=%s txt=%s meta=%s", g, inv, resp, infoS, idsCSV(vids), idsCSV(tids), idsCSV(ms.AllDocs))
+		probe(g, inv, resp, h2, v2, t2, m2)
 	}
 	var wg sync.WaitGroup
 	start := make(chan struct{})
@@ -491,6 +596,10 @@ func execImage(c *imageCase) []string {
 	close(start)
 	wg.Wait()
 	image(999) // quiescent image
+	// … and the LIVE index itself (Flush first: tombstoned entries are physically dropped)
+	inv := clk.Add(1)
+	idx.Flush()
+	probe(998, inv, clk.Add(1), idx, v, liveT, liveM)
 	sort.SliceStable(lines[1:], func(i, j int) bool { return imageLineInv(lines[1+i]) < imageLineInv(lines[1+j]) })
 	return append(lines, "op judge => -", "end")
 }
@@ -510,6 +619,18 @@ func imageLineInv(l string) int64 {
 		return 1 << 60
 	}
 	return n
+}
+
+func dedupIDs(ids []uint32) []uint32 {
+	seen := map[uint32]bool{}
+	var out []uint32
+	for _, x := range ids {
+		if !seen[x] {
+			seen[x] = true
+			out = append(out, x)
+		}
+	}
+	return out
 }
 
 func minusIDs(ids, del []uint32) []uint32 {
@@ -537,7 +658,110 @@ type closeRaceCase struct {
 	Docs  int    `json:"docs"`
 }
 
-var closeRacePoints = []string{"compact:load", "compact:write", "compact:swap"}
+var closeRacePoints = []string{"compact:load", "compact:write", "compact:swap", "add:in-flight", "add:in-flight"}
+
+// execCloseVsAdd: an AddWithID that has passed the closed-check (parked at the yield point inside
+// memtable.addWithID) while Close() runs; the add then finishes — writes, and asks for a flush
+// (FlushThreshold = 1) — against a store that is shutting down. Nobody may panic, everybody returns.
+func execCloseVsAdd(c *closeRaceCase) []string {
+	lines := []string{"begin closerace"}
+	dir, err := os.MkdirTemp("", "c11close")
+	if err != nil {
+		return append(lines, "op panic tempdir: "+err.Error(), "end")
+	}
+	defer os.RemoveAll(dir)
+	v, _ := comet.NewFlatIndex(2, comet.DistanceKind("l2"))
+	cfg := comet.DefaultStorageConfig(dir)
+	cfg.MemtableSizeLimit = 100
+	cfg.FlushThreshold = 1 // every add asks the flush worker for a flush
+	cfg.CompactionInterval = time.Hour
+	cfg.CompactionThreshold = 1 << 30
+	cfg.VectorIndexTemplate = v
+	st, err := comet.OpenPersistentHybridIndex(cfg)
+	if err != nil {
+		return append(lines, "op panic open: "+err.Error(), "end")
+	}
+	for i := 0; i < c.Docs; i++ {
+		if err := st.AddWithID(uint32(500+i), []float32{1, float32(i)}, "", nil); err != nil {
+			st.Close()
+			return append(lines, "op panic add: "+err.Error(), "end")
+		}
+	}
+	parked := make(chan struct{}, 1)
+	release := make(chan struct{})
+	closedFlag := make(chan struct{}, 1)
+	var adder atomic.Int64
+	var once2 sync.Once
+	comet.VerifSetPointHandler(func(name string) {
+		switch name {
+		case "memtable:addWithID:checked":
+			if goid() == adder.Load() {
+				parked <- struct{}{}
+				<-release
+			}
+		case "close:closed":
+			once2.Do(func() { closedFlag <- struct{}{} })
+		}
+	})
+	defer comet.VerifSetPointHandler(nil)
+	addDone := make(chan string, 1)
+	go func() {
+		adder.Store(goid())
+		defer func() {
+			if r := recover(); r != nil {
+				addDone <- "panic:" + strings.ReplaceAll(core_trunc(fmt.Sprint(r), 80), " ", "_")
+			}
+		}()
+		if err := st.AddWithID(900, []float32{2, 3}, "", nil); err != nil {
+			addDone <- "err"
+		} else {
+			addDone <- "ok"
+		}
+	}()
+	select {
+	case <-parked:
+	case out := <-addDone:
+		close(release)
+		st.Close()
+		return append(lines, "# the add did not reach its yield point: "+out, fmt.Sprintf("op closerace %s => nocompaction", c.Point), "end")
+	case <-time.After(3 * time.Second):
+		close(release)
+		st.Close()
+		return append(lines, fmt.Sprintf("op closerace %s => nocompaction", c.Point), "end")
+	}
+	closeDone := make(chan error, 1)
+	go func() { closeDone <- st.Close() }()
+	select {
+	case <-closedFlag:
+	case <-time.After(2 * time.Second):
+	}
+	time.Sleep(20 * time.Millisecond) // Close signals its workers right after the flag
+	close(release)
+	out := "hang"
+	select {
+	case out = <-addDone:
+	case <-time.After(10 * time.Second):
+	}
+	if strings.HasPrefix(out, "panic:") {
+		select {
+		case <-closeDone:
+		case <-time.After(5 * time.Second):
+		}
+		return append(lines, "op panic (AddWithID in flight while Close ran) "+out[6:], fmt.Sprintf("op closerace %s => %s", c.Point, out), "end")
+	}
+	if out != "hang" {
+		select {
+		case <-closeDone:
+			out = "ok"
+		case <-time.After(10 * time.Second):
+			out = "hang"
+		}
+	}
+	if out == "hang" {
+		closeRaceHung.Store(true)
+	}
+	return append(lines, fmt.Sprintf("op closerace %s => %s", c.Point, out), "end")
+}
 
 // closeRaceHung: a hang leaks goroutines and costs 10 s; cases are serialised by schedMu, so after
 // the first reported hang the remaining cases of this process are not run again.
@@ -549,6 +773,9 @@ func execCloseRace(c *closeRaceCase) []string {
 	lines := []string{"begin closerace"}
 	if closeRaceHung.Load() {
 		return append(lines, "# skipped: an earlier closerace case of this run hung (reported there)", "end")
+	}
+	if c.Point == "add:in-flight" {
+		return execCloseVsAdd(c)
 	}
 	dir, err := os.MkdirTemp("", "c11close")
 	if err != nil {
@@ -626,6 +853,489 @@ func execCloseRace(c *closeRaceCase) []string {
 	}
 }
 
+// ---------------------------------------------------------------------------------------------
+// fill: many goroutines start adding into an EMPTY index at the same instant
+
+type fillCase struct {
+	Kind   string `json:"kind"` // hnswfill | flat | ivf | pq | ivfpq | bm25 | meta | hybrid
+	G      int    `json:"g"`
+	Per    int    `json:"per"`    // adds per goroutine
+	Rounds int    `json:"rounds"` // fresh index every round
+}
+
+var fillKinds = []string{"hnswfill", "flat", "ivf", "pq", "ivfpq", "bm25", "meta", "hybrid"}
+
+// execFill speaks the `conc` protocol: one begin … judge … end block per round.
+func execFill(c *fillCase) []string {
+	var lines []string
+	for round := 0; round < c.Rounds; round++ {
+		lines = append(lines, fmt.Sprintf("begin conc %s %d", c.Kind, c.G))
+		t, err := newConcTarget(c.Kind)
+		if err != nil {
+			return append(lines, "op panic constructor: "+err.Error(), "end")
+		}
+		var clk atomic.Int64
+		var mu sync.Mutex
+		var block []string
+		logf := func(format string, a ...any) {
+			s := fmt.Sprintf(format, a...)
+			mu.Lock()
+			block = append(block, s)
+			mu.Unlock()
+		}
+		var ready atomic.Int32
+		var wg sync.WaitGroup
+		base := concIDBase + uint32(round)*1000
+		for g := 0; g < c.G; g++ {
+			wg.Add(1)
+			go func(g int) {
+				defer wg.Done()
+				defer func() {
+					if r := recover(); r != nil {
+						logf("op panic %s", core_trunc(strings.ReplaceAll(fmt.Sprint(r), "\n", " "), 200))
+					}
+				}()
+				// spin barrier: everybody probes the empty index within the same microsecond
+				ready.Add(1)
+				for ready.Load() < int32(c.G) {
+				}
+				for j := 0; j < c.Per; j++ {
+					id := base + uint32(g*c.Per+j) + 1
+					inv := clk.Add(1)
+					out := concErr(t.add(id))
+					resp := clk.Add(1)
+					if t.vecOf != nil {
+						logf("op add %d %d %d %d %s => %s", g, id, inv, resp, core.VecHex(t.vecOf(id)), out)
+					} else {
+						logf("op add %d %d %d %d => %s", g, id, inv, resp, out)
+					}
+				}
+			}(g)
+		}
+		wg.Wait()
+		// quiescence: every acknowledged add must be findable
+		inv := clk.Add(1)
+		ids, err := t.search(false)
+		resp := clk.Add(1)
+		if err != nil {
+			block = append(block, fmt.Sprintf("op search 999 %d %d => %s", inv, resp, concErr(err)))
+		} else {
+			block = append(block, fmt.Sprintf("op search 999 %d %d => ok %s", inv, resp, idsCSV(ids)))
+		}
+		sort.SliceStable(block, func(i, j int) bool { return lineInv(block[i]) < lineInv(block[j]) })
+		lines = append(lines, block...)
+		lines = append(lines, "op judge => -", "end")
+		if t.cleanup != nil {
+			t.cleanup()
+		}
+	}
+	return lines
+}
+
+// ---------------------------------------------------------------------------------------------
+// badcall: calls that fail sequentially, mixed into concurrent use — they must fail AND leave the
+// index usable (every later operation returns and answers correctly)
+
+type badOp struct {
+	Op string `json:"op"` // add | remove | search | flush | bad
+	ID uint32 `json:"id,omitempty"`
+	V  int    `json:"v,omitempty"` // bad: variant
+}
+
+type badCase struct {
+	Kind   string    `json:"kind"`   // flat | hnsw | ivf | pq | ivfpq | bm25 | meta | hybrid
+	Metric string    `json:"metric"` // cosine | l2
+	Progs  [][]badOp `json:"progs"`
+}
+
+var badKinds = []string{"flat", "hnsw", "ivf", "pq", "ivfpq", "bm25", "meta", "hybrid"}
+
+func genBad(r *core.Rand, tier string) *badCase {
+	c := &badCase{Kind: badKinds[r.Pick(2, 2, 3, 2, 2, 1, 1, 2)], Metric: "cosine"}
+	if r.Chance(0.25) {
+		c.Metric = "l2"
+	}
+	g := r.Range(2, 6)
+	next := concIDBase + uint32(r.Intn(1000))*64
+	c.Progs = make([][]badOp, g)
+	for gi := range c.Progs {
+		var mine []uint32
+		for i := r.Range(4, 12); i > 0; i-- {
+			switch r.Pick(4, 2, 3, 1, 5) {
+			case 0:
+				next++
+				mine = append(mine, next)
+				c.Progs[gi] = append(c.Progs[gi], badOp{Op: "add", ID: next})
+			case 1:
+				if len(mine) > 0 {
+					k := r.Intn(len(mine))
+					c.Progs[gi] = append(c.Progs[gi], badOp{Op: "remove", ID: mine[k]})
+					mine = append(mine[:k], mine[k+1:]...)
+				}
+			case 2:
+				c.Progs[gi] = append(c.Progs[gi], badOp{Op: "search"})
+			case 3:
+				c.Progs[gi] = append(c.Progs[gi], badOp{Op: "flush"})
+			case 4:
+				c.Progs[gi] = append(c.Progs[gi], badOp{Op: "bad", V: r.Intn(1000)})
+			}
+		}
+		// every goroutine ends with a write, so that a lock leaked by a failing call is noticed
+		next++
+		c.Progs[gi] = append(c.Progs[gi], badOp{Op: "add", ID: next}, badOp{Op: "flush"})
+	}
+	return c
+}
+
+// badTarget: the valid operations plus the failing variants of one instance.
+type badTarget struct {
+	add    func(id uint32) error
+	remove func(id uint32) error
+	search func() ([]uint32, error)
+	flush  func() error
+	bad    []func() (string, error) // each must return a non-nil error
+}
+
+func newBadTarget(kind, metric string) (*badTarget, error) {
+	dk := comet.DistanceKind(metric)
+	zero := []float32{0, 0, 0, 0}
+	short := []float32{1, 2, 3}
+	q := []float32{1, 2, 3, 4}
+	vecBad := func(idx comet.VectorIndex, untrained comet.VectorIndex) []func() (string, error) {
+		bad := []func() (string, error){
+			func() (string, error) {
+				return "add-wrong-dimension", idx.Add(*comet.NewVectorNodeWithID(77, append([]float32(nil), short...)))
+			},
+			func() (string, error) {
+				_, err := idx.NewSearch().WithK(bigK).WithQuery(append([]float32(nil), short...)).Execute()
+				return "search-wrong-dimension", err
+			},
+			func() (string, error) {
+				_, err := idx.NewSearch().WithK(bigK).WithNode(4242424).Execute()
+				return "search-unknown-node", err
+			},
+			func() (string, error) {
+				_, err := idx.NewSearch().WithK(bigK).Execute()
+				return "search-without-query", err
+			},
+		}
+		if metric == "cosine" {
+			bad = append(bad,
+				func() (string, error) {
+					return "add-zero-vector-cosine", idx.Add(*comet.NewVectorNodeWithID(78, append([]float32(nil), zero...)))
+				},
+				func() (string, error) {
+					_, err := idx.NewSearch().WithK(bigK).WithNProbes(3).WithQuery(append([]float32(nil), zero...)).Execute()
+					return "search-zero-query-cosine", err
+				},
+				func() (string, error) {
+					_, err := idx.NewSearch().WithK(bigK).WithNProbes(3).WithQuery(q, append([]float32(nil), zero...)).Execute()
+					return "search-second-query-zero-cosine", err
+				})
+		}
+		if untrained != nil {
+			bad = append(bad,
+				func() (string, error) {
+					_, err := untrained.NewSearch().WithK(bigK).WithQuery(q).Execute()
+					return "search-untrained", err
+				},
+				func() (string, error) {
+					return "add-untrained", untrained.Add(*comet.NewVectorNodeWithID(79, concVec(79)))
+				})
+		}
+		return bad
+	}
+	vec := func(idx comet.VectorIndex, untrained comet.VectorIndex, nprobe int) *badTarget {
+		return &badTarget{
+			add:    func(id uint32) error { return idx.Add(*comet.NewVectorNodeWithID(id, concVec(id))) },
+			remove: func(id uint32) error { return idx.Remove(*comet.NewVectorNodeWithID(id, nil)) },
+			search: func() ([]uint32, error) {
+				res, err := idx.NewSearch().WithK(bigK).WithNProbes(nprobe).WithEfSearch(4096).WithQuery(q).Execute()
+				return vecIDs(res), err
+			},
+			flush: idx.Flush,
+			bad:   vecBad(idx, untrained),
+		}
+	}
+	switch kind {
+	case "flat":
+		idx, err := comet.NewFlatIndex(4, dk)
+		if err != nil {
+			return nil, err
+		}
+		return vec(idx, nil, 1), nil
+	case "hnsw":
+		idx, err := comet.NewHNSWIndex(4, dk, 4, 32, 4096)
+		if err != nil {
+			return nil, err
+		}
+		return vec(idx, nil, 1), nil
+	case "ivf":
+		idx, err := comet.NewIVFIndex(4, 3, dk)
+		if err != nil {
+			return nil, err
+		}
+		if err := idx.Train(trainVecs(40)); err != nil {
+			return nil, err
+		}
+		un, _ := comet.NewIVFIndex(4, 3, dk)
+		return vec(idx, un, 3), nil
+	case "pq":
+		idx, err := comet.NewPQIndex(4, dk, 2, 4)
+		if err != nil {
+			return nil, err
+		}
+		if err := idx.Train(trainVecs(40)); err != nil {
+			return nil, err
+		}
+		un, _ := comet.NewPQIndex(4, dk, 2, 4)
+		return vec(idx, un, 1), nil
+	case "ivfpq":
+		idx, err := comet.NewIVFPQIndex(4, dk, 3, 2, 4)
+		if err != nil {
+			return nil, err
+		}
+		if err := idx.Train(trainVecs(40)); err != nil {
+			return nil, err
+		}
+		un, _ := comet.NewIVFPQIndex(4, dk, 3, 2, 4)
+		return vec(idx, un, 3), nil
+	case "bm25":
+		idx := comet.NewBM25SearchIndex()
+		return &badTarget{
+			add:    func(id uint32) error { return idx.Add(id, concText(id)) },
+			remove: idx.Remove,
+			search: func() ([]uint32, error) {
+				res, err := idx.NewSearch().WithK(bigK).WithQuery("common").Execute()
+				out := make([]uint32, len(res))
+				for i, h := range res {
+					out[i] = h.GetId()
+				}
+				return out, err
+			},
+			flush: idx.Flush,
+			bad: []func() (string, error){
+				func() (string, error) {
+					_, err := idx.NewSearch().WithK(bigK).Execute()
+					return "text-search-without-query", err
+				},
+				func() (string, error) {
+					_, err := idx.NewSearch().WithK(bigK).WithNode(4242424).Execute()
+					return "text-search-unknown-node", err
+				},
+			},
+		}, nil
+	case "meta":
+		idx := comet.NewRoaringMetadataIndex()
+		return &badTarget{
+			add:    func(id uint32) error { return idx.Add(*comet.NewMetadataNodeWithID(id, concMeta(id))) },
+			remove: func(id uint32) error { return idx.Remove(*comet.NewMetadataNodeWithID(id, nil)) },
+			search: func() ([]uint32, error) {
+				res, err := idx.NewSearch().Execute()
+				out := make([]uint32, len(res))
+				for i, h := range res {
+					out[i] = h.GetId()
+				}
+				return out, err
+			},
+			flush: idx.Flush,
+			bad: []func() (string, error){
+				func() (string, error) {
+					// (the numeric field "n" exists: the seed document added before the race has it)
+					_, err := idx.NewSearch().WithFilters(comet.Gt("n", "abc")).Execute()
+					return "filter-wrong-operand-type", err
+				},
+				func() (string, error) {
+					return "add-unsupported-value-type", idx.Add(*comet.NewMetadataNodeWithID(concIDBase-8, map[string]interface{}{"x": []int{1}}))
+				},
+			},
+		}, nil
+	case "hybrid":
+		v, err := comet.NewFlatIndex(4, dk)
+		if err != nil {
+			return nil, err
+		}
+		idx := comet.NewHybridSearchIndex(v, comet.NewBM25SearchIndex(), comet.NewRoaringMetadataIndex())
+		bad := []func() (string, error){
+			func() (string, error) {
+				return "hybrid-add-wrong-dimension", idx.AddWithID(concIDBase-7, append([]float32(nil), short...), "common x", nil)
+			},
+			func() (string, error) {
+				_, err := idx.NewSearch().WithK(bigK).WithVector(append([]float32(nil), short...)).Execute()
+				return "hybrid-search-wrong-dimension", err
+			},
+			func() (string, error) {
+				return "hybrid-add-unsupported-metadata", idx.AddWithID(concIDBase-6, concVec(5), "common y", map[string]interface{}{"x": []int{1}})
+			},
+		}
+		if metric == "cosine" {
+			bad = append(bad, func() (string, error) {
+				_, err := idx.NewSearch().WithK(bigK).WithVector(append([]float32(nil), zero...)).Execute()
+				return "hybrid-search-zero-query-cosine", err
+			}, func() (string, error) {
+				return "hybrid-add-zero-vector-cosine", idx.AddWithID(concIDBase-5, append([]float32(nil), zero...), "", nil)
+			})
+		}
+		return &badTarget{
+			add:    func(id uint32) error { return idx.AddWithID(id, concVec(id), concText(id), concMeta(id)) },
+			remove: idx.Remove,
+			search: func() ([]uint32, error) {
+				res, err := idx.NewSearch().WithK(bigK).WithVector(q).Execute()
+				return hybIDs(res), err
+			},
+			flush: idx.Flush,
+			bad:   bad,
+		}, nil
+	}
+	return nil, fmt.Errorf("unknown kind %s", kind)
+}
+
+func execBad(c *badCase) []string {
+	lines := []string{fmt.Sprintf("begin conc %s %d", c.Kind, len(c.Progs))}
+	t, err := newBadTarget(c.Kind, c.Metric)
+	if err != nil {
+		return append(lines, "op panic constructor: "+err.Error(), "end")
+	}
+	var clk atomic.Int64
+	var mu sync.Mutex
+	var lastDone atomic.Int64
+	lastDone.Store(time.Now().UnixNano())
+	logf := func(format string, a ...any) {
+		s := fmt.Sprintf(format, a...)
+		mu.Lock()
+		lines = append(lines, s)
+		mu.Unlock()
+		lastDone.Store(time.Now().UnixNano())
+	}
+	guard := func(f func() string) (out string) {
+		defer func() {
+			if r := recover(); r != nil {
+				out = "panic"
+				logf("op panic %s", core_trunc(strings.ReplaceAll(fmt.Sprint(r), "\n", " "), 200))
+			}
+		}()
+		return f()
+	}
+	var inflight sync.Map // goroutine → what it is doing (for the hang report)
+	runOp := func(g int, op badOp) {
+		switch op.Op {
+		case "add":
+			inflight.Store(g, fmt.Sprintf("add(%d)", op.ID))
+			inv := clk.Add(1)
+			out := guard(func() string { return concErr(t.add(op.ID)) })
+			logf("op add %d %d %d %d => %s", g, op.ID, inv, clk.Add(1), out)
+		case "remove":
+			inflight.Store(g, fmt.Sprintf("remove(%d)", op.ID))
+			inv := clk.Add(1)
+			out := guard(func() string { return concErr(t.remove(op.ID)) })
+			logf("op remove %d %d %d %d => %s", g, op.ID, inv, clk.Add(1), out)
+		case "search":
+			inflight.Store(g, "search")
+			inv := clk.Add(1)
+			var ids []uint32
+			out := guard(func() string {
+				r, err := t.search()
+				ids = r
+				return concErr(err)
+			})
+			resp := clk.Add(1)
+			if out == "ok" {
+				logf("op search %d %d %d => ok %s", g, inv, resp, idsCSV(ids))
+			} else {
+				logf("op search %d %d %d => %s", g, inv, resp, out)
+			}
+		case "flush":
+			inflight.Store(g, "flush")
+			inv := clk.Add(1)
+			out := guard(func() string { return concErr(t.flush()) })
+			logf("op flush %d %d %d => %s", g, inv, clk.Add(1), out)
+		case "bad":
+			f := t.bad[op.V%len(t.bad)]
+			inflight.Store(g, "a failing call")
+			inv := clk.Add(1)
+			what := "?"
+			out := guard(func() string {
+				w, err := f()
+				what = w
+				if err == nil {
+					return "ok"
+				}
+				return "err"
+			})
+			logf("op bad %d %d %d %s => %s", g, inv, clk.Add(1), what, out)
+		}
+		inflight.Store(g, "idle")
+	}
+	runOp(0, badOp{Op: "add", ID: concIDBase - 9}) // seed document, never removed
+	var wg sync.WaitGroup
+	start := make(chan struct{})
+	for g := range c.Progs {
+		wg.Add(1)
+		go func(g int) {
+			defer wg.Done()
+			<-start
+			for _, op := range c.Progs[g] {
+				runOp(g, op)
+			}
+		}(g)
+	}
+	close(start)
+	done := make(chan struct{})
+	go func() { wg.Wait(); close(done) }()
+	began := time.Now()
+wait:
+	for {
+		select {
+		case <-done:
+			break wait
+		case <-time.After(100 * time.Millisecond):
+		}
+		// in-memory indexes of a few dozen documents: every operation takes microseconds
+		if time.Since(time.Unix(0, lastDone.Load())) > 6*time.Second {
+			var stuck []string
+			inflight.Range(func(k, v any) bool {
+				if v.(string) != "idle" {
+					stuck = append(stuck, fmt.Sprintf("g%d:%s", k.(int), v.(string)))
+				}
+				return true
+			})
+			sort.Strings(stuck)
+			mu.Lock()
+			out := append(append([]string(nil), lines...),
+				"op panic HANG: no operation completed for 6s — blocked for ever: "+strings.Join(stuck, " ")+
+					" (a failing call left the index locked?)", "op judge => -", "end")
+			mu.Unlock()
+			return out
+		}
+		if time.Since(began) > 45*time.Second {
+			mu.Lock()
+			out := append(append([]string(nil), lines...), "# slow: abandoned unjudged after 45s", "end")
+			mu.Unlock()
+			return out
+		}
+	}
+	inv := clk.Add(1)
+	ids, serr := t.search()
+	resp := clk.Add(1)
+	if serr != nil {
+		lines = append(lines, fmt.Sprintf("op search 999 %d %d => %s", inv, resp, concErr(serr)))
+	} else {
+		lines = append(lines, fmt.Sprintf("op search 999 %d %d => ok %s", inv, resp, idsCSV(ids)))
+	}
+	sort.SliceStable(lines[1:], func(i, j int) bool { return badLineInv(lines[1+i]) < badLineInv(lines[1+j]) })
+	return append(lines, "op judge => -", "end")
+}
+
+func badLineInv(l string) int64 {
+	f := strings.Fields(l)
+	if len(f) >= 4 && f[1] == "bad" {
+		var n int64
+		fmt.Sscan(f[3], &n)
+		return n
+	}
+	return lineInv(l)
+}
+
 func init() {
 	register(&core.Typed[maggCase]{
 		StreamName: "magg", Prop: "C11",
@@ -673,9 +1383,9 @@ func init() {
 		RuleText: "Close() against a compaction in flight on a real store with 2..4 segments: the compaction worker is parked at a yield point outside the store mutex (compact:load / compact:write / compact:swap), Close is started, the worker is released once Close has set the closed flag; everybody must return (Close waits on a WaitGroup, which the lock-order theorem does not model); non-trivial when the compaction was really in flight",
 		NCases: func(tier string) int {
 			if tier == "thorough" {
-				return 60
+				return 80
 			}
-			return 12
+			return 20
 		},
 		GenF: func(r *core.Rand, tier string) *closeRaceCase {
 			return &closeRaceCase{Point: closeRacePoints[r.Intn(len(closeRacePoints))], Docs: r.Range(2, 4)}
@@ -686,6 +1396,84 @@ func init() {
 		NonTrivialF: func(lines, replies []string) bool {
 			for _, r := range replies {
 				if strings.Contains(r, "raced=1") {
+					return true
+				}
+			}
+			return false
+		},
+	})
+	register(&core.Typed[fillCase]{
+		StreamName: "fill", Prop: "C11",
+		RuleText: "EMPTY start: 4..16 goroutines, released by a spin barrier, add 1..2 documents each into a fresh empty index (hnsw with M = 16 and at most 33 vertices, flat, ivf, pq, ivfpq, bm25, metadata, hybrid), 10..30 fresh indexes per case; at quiescence every acknowledged add must be returned by a search for everything (conc protocol, checkVisibility); non-trivial when at least two adds overlapped in time",
+		NCases: func(tier string) int {
+			if tier == "thorough" {
+				return 400
+			}
+			return 32
+		},
+		GenF: func(r *core.Rand, tier string) *fillCase {
+			c := &fillCase{Kind: fillKinds[r.Pick(8, 2, 2, 1, 1, 2, 1, 3)], G: r.Range(4, 16), Per: r.Range(1, 2), Rounds: r.Range(8, 20)}
+			if c.Kind == "hnswfill" && c.G*c.Per > 32 {
+				c.Per = 1
+			}
+			return c
+		},
+		ExecF: execFill,
+		LenF:  func(c *fillCase) int { return c.Rounds },
+		DropF: func(c *fillCase, lo, hi int) *fillCase {
+			n := *c
+			n.Rounds = c.Rounds - (hi - lo)
+			if n.Rounds < 1 {
+				n.Rounds = 1
+			}
+			return &n
+		},
+		NonTrivialF: func(lines, replies []string) bool {
+			for _, r := range replies {
+				if strings.Contains(r, "overlap_ww=1") {
+					return true
+				}
+			}
+			return false
+		},
+	})
+	register(&core.Typed[badCase]{
+		StreamName: "badcall", Prop: "C11",
+		RuleText: "2..6 goroutines mix valid Add / Remove / search / Flush with calls that fail sequentially (zero vector under cosine as vector or as first / second query, wrong dimension, search without query, unknown node id, untrained IVF / PQ / IVFPQ, metadata filter with a wrong operand type, unsupported metadata value, hybrid variants) on flat/hnsw/ivf/pq/ivfpq (cosine or l2), bm25, metadata, hybrid; every failing call must fail, every later operation must return (6 s without progress = HANG with the blocked operations) and the history is judged by the conc rules; non-trivial when a failing call was followed by a write of another goroutine",
+		NCases: func(tier string) int {
+			if tier == "thorough" {
+				return 1200
+			}
+			return 150
+		},
+		GenF:  genBad,
+		ExecF: execBad,
+		LenF: func(c *badCase) int {
+			n := 0
+			for _, p := range c.Progs {
+				n += len(p)
+			}
+			return n
+		},
+		DropF: func(c *badCase, lo, hi int) *badCase {
+			n := &badCase{Kind: c.Kind, Metric: c.Metric, Progs: make([][]badOp, len(c.Progs))}
+			k := 0
+			for g, p := range c.Progs {
+				for _, op := range p {
+					if k < lo || k >= hi {
+						n.Progs[g] = append(n.Progs[g], op)
+					}
+					k++
+				}
+			}
+			return n
+		},
+		NonTrivialF: func(lines, replies []string) bool {
+			bad := false
+			for _, l := range lines {
+				if strings.HasPrefix(l, "op bad") && strings.HasSuffix(l, "=> err") {
+					bad = true
+				} else if bad && (strings.HasPrefix(l, "op add") || strings.HasPrefix(l, "op flush")) {
 					return true
 				}
 			}
@@ -711,7 +1499,7 @@ func init() {
 			return n
 		},
 		DropF: func(c *imageCase, lo, hi int) *imageCase {
-			n := &imageCase{Pre: c.Pre, Writers: c.Writers, Loops: c.Loops, Progs: make([][]imageOp, len(c.Progs))}
+			n := &imageCase{Pre: c.Pre, Writers: c.Writers, Loops: c.Loops, Hot: c.Hot, Progs: make([][]imageOp, len(c.Progs))}
 			k := 0
 			for g, p := range c.Progs {
 				for _, op := range p {
